@@ -199,6 +199,21 @@ def main():
         for c in write_templates(W, lens[:4] if quick else lens, sym_int=(W == 3 and not quick)):
             tasks.append(case_to_task(c.with_(stack=120), max_steps=20000, vm_wall=1500 if not quick else 300))
     run_tasks(rep, tasks, limit=2400)
+    # "none of them disturbs the caller's variables or arrays": the write templates of the allocation family at every
+    # stack size (the C04 sweep: access monitor + tight-vs-generous differential)
+    sys.path.insert(0, os.path.dirname(os.path.abspath(__file__)))
+    import c04
+    stasks = []
+    for c in F.alloc_templates():
+        if 'write' in c.name:
+            for W in ([2] if quick else [2, 3, 4, 8]):
+                c04.add_tasks(stasks, c.with_(word=W), full=True, wall=400)
+    nsz = [0]
+
+    def on_sweep(r):
+        nsz[0] += r.get('sizes', 0)
+    run_tasks(rep, stasks, worker=c04.sweep_task, limit=900, on_result=on_sweep)
+    rep.cov['stack_sizes_explored_for_caller_state'] = nsz[0]
     ltasks = [dict(W=W, name='lemmas-w%d' % W) for W in ([2, 4] if quick else [2, 3, 4, 8])]
     run_tasks(rep, ltasks, worker=lemma_task, limit=1200)
     rep.rule = ('write(int) with the whole word symbolic (16 bit; 24 bit thorough), boundary constants at every word size, write(bool/byte/string/const+mutable+converted byte arrays) with symbolic contents of '
